@@ -151,6 +151,23 @@ func goroutineStateOf(marker string) (state, stack string) {
 	return "", ""
 }
 
+// goroutineStatesOf returns the scheduler states of all goroutines whose stack mentions marker.
+func goroutineStatesOf(marker string) []string {
+	buf := make([]byte, 16<<20)
+	buf = buf[:runtime.Stack(buf, true)]
+	var out []string
+	for _, g := range strings.Split(string(buf), "\n\n") {
+		if strings.Contains(g, marker) {
+			if m := goroutineHdr.FindStringSubmatch(g); m != nil {
+				out = append(out, m[1])
+			} else {
+				out = append(out, "?")
+			}
+		}
+	}
+	return out
+}
+
 type boundedOutcome struct {
 	Returned bool
 	Panic    string
